@@ -18,15 +18,19 @@ def isTypeError {β : Type} (r : Except CErr β) : Bool :=
   | .error (.typeError _) => true
   | _ => false
 
-/-- `<html style="--x:inherit; width:var(--x)">`: the declaration is a `Pending` value whose
-solution is the keyword `inherit`.  `__missing__` maps `inherit` to `initial` on the root only
-*before* pending values are solved, so `parent_style[key]` is evaluated with `parent_style = None`
-(`TypeError`), whereas a directly cascaded `inherit` gives the initial value `auto`.
-(`C06.pending_valid_partial` therefore carries the hypothesis "not `inherit`, or not the root".) -/
-theorem var_inherit_on_root :
-    isTypeError (specified ⟨[("width", .pending (some (.kw "inherit")))], none, []⟩ none "width") = true ∧
-    (specified ⟨[("width", .val (.kw "inherit"))], none, []⟩ none "width").toOption
-      = some (.kw "auto", true) := by
+/-- Regression for the repaired finding `var-inherit-on-root` (commit 582f36b).
+`<html style="--x:inherit; width:var(--x)">`: the declaration is a `Pending` value whose solution is
+the keyword `inherit`.  `__missing__` used to map `inherit` to `initial` on the root only *before*
+pending values were solved, so `parent_style[key]` was evaluated with `parent_style = None`
+(`TypeError`).  The root test now comes after the substitution: the solved `inherit` gives the
+initial value `auto`, exactly like a directly cascaded `inherit`
+(`C06.pending_valid` is the full-strength theorem). -/
+theorem var_inherit_on_root_fixed :
+    (specified ⟨[("width", .pending (some (.kw "inherit")))], none, [], none⟩ none "width").toOption
+      = some (.kw "auto", true) ∧
+    (specified ⟨[("width", .val (.kw "inherit"))], none, [], none⟩ none "width").toOption
+      = some (.kw "auto", true) ∧
+    isTypeError (specified ⟨[("width", .pending (some (.kw "inherit")))], none, [], none⟩ none "width") = false := by
   decide
 
 /-- `<div style="border-top: 5px solid"><p style="border-top-width: inherit">`: the inherited value
@@ -36,27 +40,40 @@ width is 0 when the style is none).  The same shortcut keeps `display: inherit` 
 box (CSS 2.1 §9.7), on which `float_layout` then fails an assertion. -/
 theorem inherit_skips_computing :
     let parent : Elem := ⟨[("border_top_style", .val (.kw "solid")),
-                           ("border_top_width", .val (.dim 5 "px"))], none, []⟩
-    let child : Elem := ⟨[("border_top_width", .val (.kw "inherit"))], none, []⟩
+                           ("border_top_width", .val (.dim 5 "px"))], none, [], none⟩
+    let child : Elem := ⟨[("border_top_width", .val (.kw "inherit"))], none, [], none⟩
     isOk (styleAt (1 / 2) (1 / 2) [child, parent] "border_top_style") (.kw "none") = true ∧
     isOk (styleAt (1 / 2) (1 / 2) [child, parent] "border_top_width") (.num 5) = true := by
   decide +kernel
 
 theorem inherit_skips_blockification :
-    let parent : Elem := ⟨[("display", .val (.strs ["inline", "flow"]))], none, []⟩
-    let root : Elem := ⟨[("display", .val (.strs ["block", "flow"]))], none, []⟩
-    let child : Elem := ⟨[("display", .val (.kw "inherit")), ("float", .val (.kw "left"))], none, []⟩
+    let parent : Elem := ⟨[("display", .val (.strs ["inline", "flow"]))], none, [], none⟩
+    let root : Elem := ⟨[("display", .val (.strs ["block", "flow"]))], none, [], none⟩
+    let child : Elem := ⟨[("display", .val (.kw "inherit")), ("float", .val (.kw "left"))], none, [], none⟩
     isOk (styleAt (1 / 2) (1 / 2) [child, parent, root] "float") (.kw "left") = true ∧
     isOk (styleAt (1 / 2) (1 / 2) [child, parent, root] "display") (.strs ["inline", "flow"]) = true := by
   decide +kernel
 
-/-- A style whose parent cannot deliver `page` (in the real code: an ancestor chain ending in a root
-with `page: var(--x)` solved to `inherit`, see `var_inherit_on_root`) and whose own `page` is a
-failed `var()`: the first read of `page` stores the initial value `auto`, then raises while asking
-the parent; the dict keeps `auto`, and the second read returns it although the memoised function
-still fails.  So `C06.lazy_eq_eager` needs its `NoStale` hypothesis. -/
+/-- The same with `position: absolute`: the box stays inline, and `absolute_layout` then raises
+`UnboundLocalError` (`<span>x<span style="position:absolute;display:inherit">a</span></span>`). -/
+theorem inherit_skips_blockification_absolute :
+    let parent : Elem := ⟨[("display", .val (.strs ["inline", "flow"]))], none, [], none⟩
+    let root : Elem := ⟨[("display", .val (.strs ["block", "flow"]))], none, [], none⟩
+    let child : Elem := ⟨[("display", .val (.kw "inherit")), ("position", .val (.kw "absolute"))], none, [], none⟩
+    let plain : Elem := ⟨[("display", .val (.strs ["inline", "flow"])), ("position", .val (.kw "absolute"))], none, [], none⟩
+    isOk (styleAt (1 / 2) (1 / 2) [child, parent, root] "display") (.strs ["inline", "flow"]) = true ∧
+    isOk (styleAt (1 / 2) (1 / 2) [plain, parent, root] "display") (.strs ["block", "flow"]) = true := by
+  decide +kernel
+
+/-- A style whose parent cannot deliver `page` and whose own `page` is a failed `var()`: the first
+read of `page` stores the initial value `auto`, then raises while asking the parent; the dict keeps
+`auto`, and the second read returns it although the memoised function still fails.  So
+`C06.lazy_eq_eager` needs its `NoStale` hypothesis.  (Until commit 582f36b a real document reached
+this state through an ancestor chain ending in a root with `page: var(--x)` solved to `inherit`;
+since that repair the harness reaches it only with a parent style that raises, see the
+`style-memo` section.) -/
 theorem stale_after_exception :
-    let c : Ctx := ⟨⟨[("page", .pending none)], none, []⟩,
+    let c : Ctx := ⟨⟨[("page", .pending none)], none, [], none⟩,
                     some (fun _ => .error (.typeError "parent_style[key]")), fun _ => .ok 16, 1 / 2, 1 / 2⟩
     (readSeq c [] ["page", "page"]).map okVal = [none, some (.kw "auto")] ∧
     okVal (pure' c "page") = none ∧
@@ -64,12 +81,34 @@ theorem stale_after_exception :
   decide
 
 
-/-- `border-image-width: 2em`: `computed_values.border_image_width` returns a length item as it is
-(`number if unit is None else value`), so the relative unit is never computed against the font size
-(`border_image_outset`, two lines below in the source, does call `length`).  Drawing the border image
-then fails `assert dimension.unit == 'px'`. -/
-theorem border_image_width_not_computed :
-    (borderImageWidth (.tup [.dim 2 "em"])).toOption = some (.tup [.dim 2 "em", .dim 2 "em", .dim 2 "em", .dim 2 "em"]) := by
-  decide
+/-- The same on a chain of two elements, as the `style-memo` section replays it on the real code
+(case 0): the root holds the *string* `underline` for `text-decoration-line` (a value the validator
+never produces: it gives a set), the child says `inherit`.  The first read stores the inherited
+value, then `value | parent_value` raises `TypeError`; the second read returns the stored string. -/
+theorem stale_after_exception_chain :
+    let root : Elem := ⟨[("text_decoration_line", .val (.kw "underline"))], none, [], none⟩
+    let child : Elem := ⟨[("text_decoration_line", .val (.kw "inherit"))], none, [], none⟩
+    (ctxOf (1 / 2) (1 / 2) [child, root]).map
+        (fun c => (readSeq c [] ["text_decoration_line", "text_decoration_line"]).map okVal)
+      = some [none, some (.kw "underline")] := by
+  decide +kernel
+
+/-- Regression for the repaired finding `border-image-width-not-computed` (commit 26138d1).
+`border-image-width: 2em` with a font size of 10px: `computed_values.border_image_width` used to
+return a length item as it is (`number if unit is None else value`), so the relative unit was never
+computed and drawing the border image failed `assert dimension.unit == 'px'`.  The item now goes
+through `length`: 20px on the four sides; numbers, percentages and `auto` are kept. -/
+def envFs (fs : Rat) : Env :=
+  { fontSize := fun _ => .ok fs, rootFontSize := fun _ => .ok 16, parentFontSize := none,
+    parentFontWeight := none, exRatio := 1 / 2, chRatio := 1 / 2,
+    get := fun _ => .error (.keyError "style[key]"), specified := fun _ => .error (.keyError "specified[key]"),
+    isRoot := true, pseudo := false }
+
+theorem border_image_width_computed :
+    (borderImageWidth (envFs 10) (.tup [.dim 2 "em"])).toOption
+      = some (.tup [.dim 20 "px", .dim 20 "px", .dim 20 "px", .dim 20 "px"]) ∧
+    (borderImageWidth (envFs 10) (.tup [.dim 3 "none", .kw "auto", .dim 50 "%"])).toOption
+      = some (.tup [.num 3, .kw "auto", .dim 50 "%", .kw "auto"]) := by
+  decide +kernel
 
 end Wp.Witness.C06
